@@ -28,7 +28,8 @@ ASSUMPTIONS = [
 
 
 def depth_tuple(ctx):
-    return (len(ctx.context_values), len(ctx.inputs), len(ctx.stacks), len(ctx.function_stack))
+    scopes = ctx.inputs if hasattr(ctx, "inputs") else getattr(ctx, "input_scopes")
+    return (len(ctx.context_values), len(scopes), len(ctx.stacks), len(ctx.function_stack))
 
 
 NAMES = ("context_values", "inputs", "stacks", "function_stack")
